@@ -37,7 +37,9 @@ def scratch_root():
     """Per-process scratch directory (under /dev/shm when available), removed at exit."""
     global _scratch_root
     if _scratch_root is None or _scratch_root[0] != os.getpid():
-        base = "/dev/shm" if os.path.isdir("/dev/shm") and os.access("/dev/shm", os.W_OK) else None
+        base = os.environ.get("PDPMC_SCRATCH_ROOT")  # set by the engine: one directory per run, removed by the parent
+        if not base or not os.path.isdir(base):
+            base = "/dev/shm" if os.path.isdir("/dev/shm") and os.access("/dev/shm", os.W_OK) else None
         d = tempfile.mkdtemp(prefix="pdpmc-", dir=base)
         _scratch_root = (os.getpid(), d)
         atexit.register(_cleanup, os.getpid(), d)
